@@ -54,7 +54,7 @@ type caseT struct {
 	AddStop  string `json:"add_conn_during_stop,omitempty"`     // core: "" | race | in-onopen (AddConn whose open callback is still running when Stop starts)
 	Transfer bool   `json:"ws_transfer_to_poller,omitempty"`    // http: Upgrader.BlockingModTrasferConnToPoller
 	WSSync   bool   `json:"ws_sync_write,omitempty"`            // http: Upgrader.BlockingModAsyncWrite = false
-	DialStop bool   `json:"dials_during_stop,omitempty"`         // core tcp: DialAsync calls issued around the start of Stop (refused, or dialed and closed by Stop)
+	DialStop bool   `json:"dials_during_stop,omitempty"`        // core tcp: DialAsync calls issued around the start of Stop (refused, or dialed and closed by Stop)
 	HTTPExec string `json:"http_custom_executors,omitempty"`    // http: "" | server | client | both (application-supplied executors: the engine creates, and must stop, only the pools it owns)
 	CloseAdd string `json:"close_vs_add_conn,omitempty"`        // core: "" | closed-first | close-race (Close of an nbio.Conn before / while it is handed to AddConn)
 }
